@@ -284,7 +284,7 @@ Proof.
   { destruct (mx_selected mx) as [old|]; [|inversion E1; reflexivity].
     destruct (disable_input b m old) as [b0|] eqn:E0; [|discriminate]. inversion E1.
     rewrite skel_set_selected. apply (skel_disable_input _ _ _ _ E0). }
-  destruct (run_select (mx_fun mx) (length (mx_ins mx)) selv) as [[i|]|]; [| |discriminate].
+  destruct (run_select_in b1 mx selv) as [[i|]|]; [| |discriminate].
   - destruct (enable_input b1 m i) as [b2|] eqn:E2; [|discriminate].
     destruct (nth_error (mx_ins mx) i) as [ic|]; [|discriminate].
     destruct (read_chan (set_selected b2 m (Some i)) ic) as [v|]; [|discriminate].
@@ -302,21 +302,26 @@ Qed.
 Lemma skel_run_dcb b d b' : run_dcb b d = Ok b' -> skel b' = skel b.
 Proof. destruct d; cbn; [apply skel_cb_select|apply skel_cb_input|apply skel_cb_select]. Qed.
 
-Lemma skel_run_cbs c snap l : forall b b', run_cbs b c snap l = Ok b' -> skel b' = skel b.
+Lemma skel_walk_from c : forall fuel b d b', walk_from fuel b c d = Ok b' -> skel b' = skel b.
 Proof.
-  induction l as [|d l IH]; intros b b' H; cbn in H.
-  - inversion H. reflexivity.
-  - destruct (run_dcb b d) as [b1|] eqn:E; [|discriminate].
-    destruct (dcbs_eqb (dcbs_of b1 c) snap); [|discriminate].
-    rewrite (IH _ _ H). apply (skel_run_dcb _ _ _ E).
+  induction fuel as [|f IH]; intros b d b' H; cbn in H; [discriminate|].
+  destruct (run_dcb b d) as [b1|] eqn:E; [|discriminate].
+  destruct (next_after d (dcbs_of b1 c)) as [[d'|]|]; [| |discriminate].
+  - rewrite (IH _ _ _ H). apply (skel_run_dcb _ _ _ E).
+  - inversion H; subst. apply (skel_run_dcb _ _ _ E).
+Qed.
+
+Lemma skel_run_cbs c b b' : run_cbs b c = Ok b' -> skel b' = skel b.
+Proof.
+  unfold run_cbs. destruct (dcbs_of b c) as [|d l]; [intros H; inversion H; reflexivity|]. apply skel_walk_from.
 Qed.
 
 Lemma skel_dirty_phase fuel : forall i b b', dirty_phase fuel i b = Ok b' -> skel b' = skel b.
 Proof.
   induction fuel as [|f IH]; intros i b b' H; cbn in H; [discriminate|].
   destruct (nth_error (b_dirty b) i) as [c|]; [|inversion H; reflexivity].
-  destruct (run_cbs b c (dcbs_of b c) (dcbs_of b c)) as [b1|] eqn:E; [|discriminate].
-  rewrite (IH _ _ _ H). apply (skel_run_cbs _ _ _ _ _ E).
+  destruct (run_cbs b c) as [b1|] eqn:E; [|discriminate].
+  rewrite (IH _ _ _ H). apply (skel_run_cbs _ _ _ E).
 Qed.
 
 Lemma skel_flush_all ds : forall b b', flush_all b ds = Ok b' -> skel b' = skel b.
